@@ -459,7 +459,7 @@ func cmdCheck(args []string) int {
 				sem <- struct{}{}
 				defer func() { <-sem }()
 				to := 30 * time.Second
-				if rj.v.Kind == "deadlock" || rj.v.Kind == "depth-cap" {
+				if rj.v.Kind == "deadlock" || rj.v.Kind == "depth-cap" || rj.v.Kind == "loop-cap" {
 					to = 20 * time.Second
 				}
 				rr, err := rp.Run(rj.v, rj.file, to)
